@@ -17,3 +17,8 @@ pub fn vx_vec_extend(v: &mut Vec<Span>, w: Vec<Span>)
 { unimplemented!() }
 pub assume_specification<T: Default>[ core::mem::take::<T> ](dest: &mut T) -> (r: T)
     ensures r == *old(dest);
+// `Value: Clone` (derived in the real source): the clone is an equal value
+impl Clone for Value {
+    #[verifier::external_body]
+    fn clone(&self) -> (r: Self) ensures r == *self { unimplemented!() }
+}
